@@ -174,14 +174,107 @@ JudgeReplaceExact(e) ==
 (* When the pose of a match is not determined by the search pattern (collinear / single-atom pattern with off-axis  *)
 (* replacement atoms) every rotation about the axis is a correct placement and the inserted coordinates need not   *)
 (* be lattice points.  Such a call is accepted when the exact judgement accepts it (the library often uses the      *)
-(* identity or a cube rotation there); otherwise it cannot be judged by exact lattice comparison and is skipped.   *)
+(* identity or a cube rotation there).  Otherwise it is judged through rotation-invariant data.  The inserted       *)
+(* atoms appear in the result in blocks (one per replaced match, replacement-pattern order inside a block); for     *)
+(* every (match a, block b) the harness reports the squared distances and signed volumes of                        *)
+(*      matched positions of a  ++  inserted atoms of b (nearest images)                                            *)
+(* rounded to lattice units (e.und).  The property: for every replaced match there is a block whose data equal      *)
+(* those of search pattern ++ inserted replacement atoms (a proper rigid image), and different matches own          *)
+(* different blocks.  In e.postu the inserted atoms of block b carry the placeholder position                       *)
+(* <<1000 + b, 0, replacement index>>; the expected value built here uses the block owned by the match.             *)
+Placeholder(b, r) == <<1000 + b, 0, r>>
+PlaceRP(RP, I, b) ==
+  LET ph(kk) == IF \E r \in I : Key(RP.atoms[r]) = kk THEN <<kk[1], Placeholder(b, CHOOSE r \in I : Key(RP.atoms[r]) = kk)>> ELSE kk
+  IN [atoms |-> [r \in DOMAIN RP.atoms |-> IF r \in I THEN [RP.atoms[r] EXCEPT !.pos = Placeholder(b, r)] ELSE RP.atoms[r]],
+      terms |-> [k \in Kinds |-> {[t EXCEPT !.a = Canon(k, [p \in 1..Arity(k) |-> ph(t.a[p])])] : t \in RP.terms[k]}],
+      cnt |-> RP.cnt, cell |-> RP.cell]
+RECURSIVE InsertAllPh(_, _, _, _, _, _, _)
+InsertAllPh(A, RP, I, ms, blocks, ret, replace_all) ==
+  IF ms = <<>> THEN A
+  ELSE LET m == Head(ms)
+           map == IF replace_all THEN << >> ELSE [r \in DOMAIN ret |-> m.keys[ret[r]]]
+       IN InsertAllPh(ExtendA(A, PlaceRP(RP, I, Head(blocks)), map), RP, I, Tail(ms), Tail(blocks), ret, replace_all)
+
+GramOK(SP, RP, Iseq, g) ==      \* g = [a, b, rp, d2, det, res, inside]
+  LET pts == [i \in 1..(Len(SP.atoms) + Len(Iseq)) |-> IF i <= Len(SP.atoms) THEN SP.atoms[i].pos ELSE RP.atoms[Iseq[i - Len(SP.atoms)]].pos]
+      n == Len(pts)
+  IN /\ g.res = "ok" /\ g.rp = Iseq /\ Len(g.d2) = n
+     /\ \A i, j \in 1..n : g.d2[i][j] = D2(pts[i], pts[j])
+     \* equal distances fix the shape up to a mirror image; the orientation of every non-planar quadruple excludes the mirror
+     /\ \A q \in Range(g.det) : LET pd == Det3(VSub3(pts[q[2]], pts[q[1]]), VSub3(pts[q[3]], pts[q[1]]), VSub3(pts[q[4]], pts[q[1]]))
+                                 IN pd # 0 => q[5] * pd > 0
+
+JudgeReplaceUnd(e) ==
+  LET S == Abs(e.pre)   SP == AbsT(e.sp, "sp")   RP == AbsT(e.rp, "new")
+      n == Len(e.found)
+      ms == [a \in 1..n |-> MatchOf(e.pre, e.found[a])]
+      rall == e.replace_all = "yes"
+      ret == Retained(SP, RP)
+      I == InsertedIdx(RP, ret, rall)
+      Iseq == SeqOfSet(I)
+      Y == Abs(e.post)
+      ids == RpIds(e)
+      missing == Keys(S) \ Keys(Y)
+      sizes == {k \in 0..n : IsNearest(k, e.fn, e.fd, n)}
+      sels == {s \in SUBSET (1..n) : /\ Cardinality(s) \in sizes /\ Cardinality(s) = e.count
+                                     /\ UNION {DelSet(ms[a], ret, rall) : a \in s} = missing}
+      overlap(s) == Overlapping([j \in DOMAIN SeqOfSet(s) |-> ms[SeqOfSet(s)[j]]], ret, rall)
+      fits(a) == {g.b : g \in {g \in Range(e.und) : g.a = a /\ GramOK(SP, RP, Iseq, g)}}
+      own(a) == IF Cardinality(fits(a)) = 1 THEN CHOOSE b \in fits(a) : TRUE ELSE 0
+      expected(s) == LET sq == SeqOfSet(s)
+                     IN DeleteA(InsertAllPh(S, RP, I, [j \in DOMAIN sq |-> ms[sq[j]]], [j \in DOMAIN sq |-> own(sq[j])], ret, rall),
+                                UNION {DelSet(ms[sq[j]], ret, rall) : j \in DOMAIN sq})
+      \* nearest images are the right images only while every inserted atom is closer to its anchor than half a cell width
+      \* (each inserted atom is imaged next to the search-pattern atom it is closest to in the pattern; first such atom)
+      near2 == {LET ds == {D2(RP.atoms[r].pos, SP.atoms[i].pos) : i \in DOMAIN SP.atoms} IN CHOOSE x \in ds : \A y \in ds : x <= y : r \in I}
+      m2 == CHOOSE x \in near2 : \A y \in near2 : y <= x
+      cr == {Norm2(Cross3(S.cell[2], S.cell[3])), Norm2(Cross3(S.cell[1], S.cell[3])), Norm2(Cross3(S.cell[1], S.cell[2]))}
+      det == CellDet(S.cell)
+      roomy == S.cell = <<>> \/ (IF det > 1500 THEN \A c \in cr : det > 2 * (ISqrt(m2 * c) + 1)
+                                 ELSE \A c \in cr : 49 * det * det > 200 * m2 * c)     \* width^2 > 4 * m2 * 50/49
+  IN IF e.exc # "none" \/ e.nblocks < 0 \/ ~roomy THEN "blocked:pose-underdetermined-with-off-axis-atoms"
+     ELSE IF e.wf # "ok" THEN "projection"
+     ELSE IF ~WFK(e.post) THEN "one-entry-per-atom-and-term"
+     ELSE IF e.count \notin sizes THEN "replaced-count-is-nearest-integer"
+     ELSE IF sels = {} THEN "only-selected-matches-are-replaced"
+     ELSE IF e.ignore # "yes" /\ \A s \in sels : overlap(s) THEN "overlap-not-refused"
+     ELSE LET s == IF \E c \in sels : NormBag(expected(c)) = NormBag(Y) THEN CHOOSE c \in sels : NormBag(expected(c)) = NormBag(Y)
+                   ELSE CHOOSE c \in sels : TRUE
+              X == expected(s)
+              NX == NormA(X)
+              NY == NormA(Y)
+          IN IF e.ignore = "yes" /\ overlap(s) THEN "ok"
+             ELSE IF e.nblocks # Cardinality(s) THEN "which-atoms-removed-and-inserted"
+             ELSE IF \E a \in s : fits(a) = {} THEN "inserted-atoms-placement"
+             ELSE IF \E a \in s : Cardinality(fits(a)) > 1 THEN "blocked:pose-underdetermined-and-blocks-ambiguous"
+             ELSE IF \E a, c \in s : a # c /\ own(a) = own(c) THEN "inserted-atoms-placement"
+             ELSE IF S.cell # <<>> /\ \E g \in Range(e.und) : g.inside # "yes" THEN "inserted-inside-cell"
+             ELSE IF Len(Y.atoms) # Len(X.atoms) THEN "atom-count"
+             ELSE IF SeqToBag([i \in DOMAIN Y.atoms |-> Y.atoms[i].id]) # SeqToBag([i \in DOMAIN X.atoms |-> X.atoms[i].id]) THEN "which-atoms-removed-and-inserted"
+             ELSE IF {Key(r) : r \in Range(Y.atoms)} # {Key(r) : r \in Range(X.atoms)} THEN
+                  (IF {Key(r) : r \in {r \in Range(Y.atoms) : r.id \notin ids}} # {Key(r) : r \in {r \in Range(X.atoms) : r.id \notin ids}}
+                   THEN "bystander-position" ELSE "which-atoms-removed-and-inserted")
+             ELSE IF SeqToBag(Y.atoms) # SeqToBag(X.atoms) THEN
+                  (IF \A r \in Range(Y.atoms) : \E q \in Range(X.atoms) : Key(r) = Key(q) /\ r.ty = q.ty THEN "atoms-data"
+                   ELSE IF \E r \in Range(Y.atoms) : \A q \in Range(X.atoms) : Key(r) = Key(q) => r.ty.el # q.ty.el THEN "atoms-element"
+                   ELSE "atoms-type-meaning")
+             ELSE IF \E k \in Kinds : Y.cnt[k] # Cardinality(Y.terms[k]) THEN "term-listed-twice"
+             ELSE IF NY.terms["bond"] # NX.terms["bond"] THEN "bonds"
+             ELSE IF NY.terms["angle"] # NX.terms["angle"] THEN "angles"
+             ELSE IF NY.terms["dihedral"] # NX.terms["dihedral"] THEN "dihedrals"
+             ELSE IF NY.terms["improper"] # NX.terms["improper"] THEN "impropers"
+             ELSE IF Y.cell # X.cell THEN "cell"
+             ELSE IF ~ConsistentA(Y) THEN "consistent"
+             ELSE "ok"
+
 JudgeReplace(e) ==
   LET v == JudgeReplaceExact(e)
       SP == AbsT(e.sp, "sp")   RP == AbsT(e.rp, "new")
       und == Len(e.found) > 0 /\ Len(RP.atoms) > 0 /\ PoseUnderdetermined(SP, RP, Retained(SP, RP), e.replace_all = "yes")
   IN IF v = "ok" \/ ~und THEN v
-     ELSE IF v \in {"projection", "inserted-atoms-placement", "atoms-data", "bonds", "angles", "dihedrals", "impropers", "consistent",
+     ELSE IF v \in {"projection", "atom-count", "inserted-atoms-placement", "inserted-inside-cell", "atoms-data", "atoms-element", "atoms-type-meaning",
+                    "term-listed-twice", "bonds", "angles", "dihedrals", "impropers", "consistent", "which-atoms-removed-and-inserted",
                     "blocked:two-matches-insert-the-same-atom-at-the-same-place"}
-          THEN "blocked:pose-underdetermined-with-off-axis-atoms"
+          THEN JudgeReplaceUnd([e EXCEPT !.post = e.postu, !.wf = e.wfu])
      ELSE v
 =============================================================================
